@@ -16,7 +16,65 @@ from . import _segrules
 from . import _selrules
 
 
+def check_merge_granularity(model: Model, report: Report, rule: str) -> None:
+    """Exhaustiveness, a necessary condition: a random order-preserving merge into the work queue takes the children
+    of ONE node per draw.  A list that accumulates the children of several siblings before a single draw keeps their
+    relative order fixed, so orderings the RFC allows (a later sibling's child before an earlier sibling's child)
+    can no longer be produced through that draw."""
+    import ast
+
+    from ..model import AnalysisError
+    from ..model import walk_own
+
+    ci = model.cls("segments.JSONPathRecursiveDescentSegment")
+    fn = ci.find_method("_nondeterministic_visit")
+    if fn is None:
+        raise AnalysisError("anchor vanished: JSONPathRecursiveDescentSegment._nondeterministic_visit")
+    parents: dict = {}
+    for n in ast.walk(fn.node):
+        for c in ast.iter_child_nodes(n):
+            parents[c] = n
+
+    def loops_of(n: ast.AST) -> list:
+        out = []
+        while n in parents:
+            n = parents[n]
+            if isinstance(n, (ast.For, ast.While)):
+                out.append(n)
+        return out
+
+    draws = [n for n in walk_own(fn.node) if isinstance(n, ast.Call) and ast.unparse(n.func) in ("random.sample", "random.shuffle", "random.choices", "sample", "shuffle")]
+    recognised = 0
+    for d in draws:
+        merged = {x.id for a in d.args for x in ast.walk(a) if isinstance(x, ast.Name)}
+        d_loops = loops_of(d)
+        for name in sorted(merged):
+            writes = []
+            for n in walk_own(fn.node):
+                if isinstance(n, (ast.Assign, ast.AnnAssign)) and any(isinstance(t, ast.Name) and t.id == name for t in (n.targets if isinstance(n, ast.Assign) else [n.target])):
+                    writes.append(n)
+                elif isinstance(n, ast.AugAssign) and isinstance(n.target, ast.Name) and n.target.id == name:
+                    writes.append(n)
+                elif isinstance(n, ast.Call) and isinstance(n.func, ast.Attribute) and isinstance(n.func.value, ast.Name) and n.func.value.id == name and n.func.attr in ("extend", "append", "insert", "appendleft", "extendleft"):
+                    writes.append(n)
+            feeds = [w for w in writes if any(isinstance(c, ast.Call) and "children" in ast.unparse(c.func) for c in ast.walk(w))]
+            if not feeds:
+                continue  # not a list of children (e.g. the queue itself, rebuilt from the draw)
+            for w in feeds:
+                extra = [f for f in loops_of(w) if isinstance(f, ast.For) and f not in d_loops]
+                if extra:
+                    f = extra[0]
+                    report.fail(rule, fn.qualname, f"merge-granularity:{name}", f"'{name}' collects the children of every {ast.unparse(f.target)} of the loop at line {f.lineno} and is merged into the queue by one draw after the loop (line {d.lineno}): the relative order of different siblings' children is then fixed, so RFC-permitted orderings that put a later sibling's child before an earlier sibling's child are never produced (the mode is not exhaustive)", file=fn.file, line=d.lineno)
+                else:
+                    recognised += 1
+    if recognised:
+        report.ok(rule, fn.qualname, "every interleaving draw merges the children of one node", detail={"draws": len(draws), "feeds": recognised})
+    elif not any(f.rule == rule for f in report.findings):
+        report.not_decided.append("merge granularity: no order-preserving draw over a list of children was recognised in _nondeterministic_visit")
+
+
 def check(model: Model, report: Report) -> None:
+    report.rule("R17.7", "exhaustiveness (necessary condition): each order-preserving random merge into the work queue takes the children of a single node; children of several siblings are never accumulated into one merged batch")
     report.rule("R17.1", "object members are shuffled only on a fresh list copy under an isinstance(dict) guard; arrays iterate in index order in both modes; children are paired (value, key)")
     report.rule("R17.2", "nondeterministic visitor: dequeued node is yielded before its children are expanded; each child is yielded-now (and its children queued) or queued, exactly once")
     report.rule("R17.4", "selector results stay contiguous per visited node in both modes")
@@ -25,13 +83,14 @@ def check(model: Model, report: Report) -> None:
     report.not_decided += [
         "queue interleaving preserves relative order for every outcome of random.sample",
         "multiset equality with the deterministic result",
-        "exhaustiveness: every RFC-permitted ordering is produced by some outcome",
+        "exhaustiveness as a whole: every RFC-permitted ordering is produced by some outcome (decided: the sources of randomness are non-degenerate, R17.5, and merges are per node, R17.7)",
     ]
     _selrules.check_wildcard(model, report, "R17.1", nondet=True)
     _selrules.check_wildcard(model, report, "R17.6", nondet=False)
     _segrules.check_nondet_children(model, report, "R17.1")
     _segrules.check_nondet_visit(model, report, "R17.2", None, "R17.5")
     _segrules.check_descendant_nesting(model, report, "R17.4")
+    check_merge_granularity(model, report, "R17.7")
     try:
         from . import _filtersel
 
